@@ -13,6 +13,9 @@ explicit whitespace `Text` and comments are items. It is what tree-sitter delive
                   | (`!` | `-`) (gap comment)* gap expr      (unary operator)
                   | name (gap comment)* gap `:` gap expr      (lambda with an identifier argument)
                   | expr (gap comment)* gap `.` gap name (`.` name)* [(gap comment)* gap `or` gap expr]      (select)
+                  | `if` (gap comment)* gap expr (gap comment)* gap `then` (gap comment)* gap expr
+                      (gap comment)* gap `else` (gap comment)* gap expr      (if / then / else)
+                  | expr (gap comment)* gap `?` (gap comment)* gap name (`.` name)*      (has-attr)
     list items    : (gap comment | gap expr)*
     set items     : (gap comment | gap binding)*
     binding       : name (gap comment)* gap `=` (gap comment)* gap expr (gap comment)* gap `;`
@@ -61,6 +64,11 @@ inductive Cst where
   | un (op : Text) (c : GC) (g : Text) (e : Cst)
   /-- left c1 g1 operator c2 g2 right — `binary_expression` -/
   | bin (l : Cst) (c1 : GC) (g1 : Text) (op : Text) (c2 : GC) (g2 : Text) (r : Cst)
+  /-- `if` c1 g1 condition c2 g2 `then` c3 g3 consequence c4 g4 `else` c5 g5 alternative — `if_expression` -/
+  | ite (c1 : GC) (g1 : Text) (cond : Cst) (c2 : GC) (g2 : Text) (c3 : GC) (g3 : Text) (thn : Cst)
+      (c4 : GC) (g4 : Text) (c5 : GC) (g5 : Text) (els : Cst)
+  /-- expression c1 g1 `?` c2 g2 a₁ `.` a₂ … — `has_attr_expression`; the attrpath holds no whitespace -/
+  | has (e : Cst) (c1 : GC) (g1 : Text) (c2 : GC) (g2 : Text) (attrs : List Text)
 inductive Items where
   | nil
   /-- gap, comment token -/
@@ -105,6 +113,10 @@ def Cst.flatten : Cst → Text
   | .lam n c1 g1 c2 g2 b => n ++ flattenGC c1 ++ g1 ++ ':' :: flattenGC c2 ++ g2 ++ b.flatten
   | .un op c g e => op ++ flattenGC c ++ g ++ e.flatten
   | .bin l c1 g1 op c2 g2 r => l.flatten ++ flattenGC c1 ++ g1 ++ op ++ flattenGC c2 ++ g2 ++ r.flatten
+  | .ite c1 g1 c c2 g2 c3 g3 t c4 g4 c5 g5 e =>
+    ['i', 'f'] ++ flattenGC c1 ++ g1 ++ c.flatten ++ flattenGC c2 ++ g2 ++ ['t', 'h', 'e', 'n'] ++ flattenGC c3 ++ g3 ++
+      t.flatten ++ flattenGC c4 ++ g4 ++ ['e', 'l', 's', 'e'] ++ flattenGC c5 ++ g5 ++ e.flatten
+  | .has e c1 g1 c2 g2 attrs => e.flatten ++ flattenGC c1 ++ g1 ++ '?' :: flattenGC c2 ++ g2 ++ attrText attrs
 def Items.flatten : Items → Text
   | .nil => []
   | .cmt g t rest => g ++ t ++ rest.flatten
@@ -146,6 +158,11 @@ def attrLex : List Text → List Lex
   | [] => []
   | a :: rest => .tok ['.'] :: .tok a :: attrLex rest
 
+/-- the tokens of `a₁.a₂.….aₙ` -/
+def attrLex0 : List Text → List Lex
+  | [] => []
+  | a :: rest => .tok a :: attrLex rest
+
 mutual
 def Cst.lex : Cst → List Lex
   | .leaf _ t => [.tok t]
@@ -159,6 +176,10 @@ def Cst.lex : Cst → List Lex
   | .lam n c1 _ c2 _ b => .tok n :: lexGC c1 ++ .tok [':'] :: lexGC c2 ++ b.lex
   | .un op c _ e => .tok op :: lexGC c ++ e.lex
   | .bin l c1 _ op c2 _ r => l.lex ++ lexGC c1 ++ .tok op :: lexGC c2 ++ r.lex
+  | .ite c1 _ c c2 _ c3 _ t c4 _ c5 _ e =>
+    .tok ['i', 'f'] :: lexGC c1 ++ c.lex ++ lexGC c2 ++ .tok ['t', 'h', 'e', 'n'] :: lexGC c3 ++ t.lex ++ lexGC c4 ++
+      .tok ['e', 'l', 's', 'e'] :: lexGC c5 ++ e.lex
+  | .has e c1 _ c2 _ attrs => e.lex ++ lexGC c1 ++ .tok ['?'] :: lexGC c2 ++ attrLex0 attrs
 def Items.lex : Items → List Lex
   | .nil => []
   | .cmt _ t rest => .cmt t :: rest.lex
@@ -313,6 +334,14 @@ def Cst.wf : Cst → Bool
   -- its own take the chain formatter `_format_chained_binary`, which is not modelled
   | .bin l c1 g1 op c2 g2 r =>
     l.wf && c1.isEmpty && isGap g1 && binOpOk op && !(chainOp op && containsNL g1) && c2.isEmpty && isGap g2 && r.wf
+  -- `if` / `then` / `else`: the five inner gaps are whitespace only (the comment paths of `IfExpression.from_cst`
+  -- are modelled and tied — `Cst.modelled` —, but are outside the theorems' fragment)
+  | .ite c1 g1 c c2 g2 c3 g3 t c4 g4 c5 g5 e =>
+    c1.isEmpty && isGap g1 && c.wf && c2.isEmpty && isGap g2 && c3.isEmpty && isGap g3 && t.wf && c4.isEmpty && isGap g4 &&
+      c5.isEmpty && isGap g5 && e.wf
+  -- `e ? a.b`: whitespace only around the `?`
+  | .has e c1 g1 c2 g2 attrs =>
+    e.wf && c1.isEmpty && isGap g1 && c2.isEmpty && isGap g2 && !attrs.isEmpty && attrs.all attrSegOk
 /-- `closeGap`: the whitespace after the last item (in front of the closing token / the end of the
     file) -/
 def Items.wf : Items → Mode → Text → Bool
@@ -327,7 +356,7 @@ end
 
 mutual
 /-- what the MODEL covers (a superset of `wf`, the theorems' fragment): `wf` with comments allowed in
-    the inner gaps of `with` / `assert`. The driver answers `roundtrip`
+    the inner gaps of `with` / `assert` / select / unary / `if` / has-attr and in front of the `:` of a lambda. The driver answers `roundtrip`
     requests on this set, so the transliterations of `WithStatement` / `Assertion` are compared with
     the implementation also where no theorem speaks about them yet. -/
 def Cst.modelled : Cst → Bool
@@ -348,6 +377,11 @@ def Cst.modelled : Cst → Bool
   | .bin l c1 g1 op c2 g2 r =>
     l.modelled && c1.isEmpty && isGap g1 && binOpOk op && !(chainOp op && containsNL g1) && c2.isEmpty && isGap g2 &&
       r.modelled
+  | .ite c1 g1 c c2 g2 c3 g3 t c4 g4 c5 g5 e =>
+    gcOk c1 g1 && isGap g1 && c.modelled && gcOk c2 g2 && isGap g2 && gcOk c3 g3 && isGap g3 && t.modelled && gcOk c4 g4 &&
+      isGap g4 && gcOk c5 g5 && isGap g5 && e.modelled
+  | .has e c1 g1 c2 g2 attrs =>
+    e.modelled && gcOk c1 g1 && isGap g1 && gcOk c2 g2 && isGap g2 && !attrs.isEmpty && attrs.all attrSegOk
 def Items.modelled : Items → Mode → Text → Bool
   | .nil, _, _ => true
   | .cmt g t rest, m, cg =>
